@@ -1,3 +1,6 @@
-//! Only the PRNG of the main harness (shared source file).
+//! The PRNG and the world-domain executor of the main harness (shared source files), built against specs WITHOUT its
+//! default features (no `parallel`, no `storage-event-control`).
 #[path = "../../src/rng.rs"]
 pub mod rng;
+#[path = "../../src/world_dom.rs"]
+pub mod world_dom;
